@@ -3,34 +3,50 @@
 A `DepsModules` object is built from a random.Random: it chooses a set of
 modules (files), structures with parameters and fields, enums with values, and
 a dependency relation between those objects, and renders .emb text in which
-every chosen dependency is an actual reference:
+every chosen dependency is an actual reference.  Every way the language lets
+one object mention another is used (edge kinds, recorded per edge):
 
-  * a field mentions fields / parameters of its own structure in its location
-    (start, size), its existence condition or its value (`let`);
-  * fields and enum values mention enum values (`Ee.VX`) and fields of other
-    structures (`Ss.f`) of the same or of an imported module.
+  cond      existence condition            `if a + b == 1:`
+  start     field location, start          `a + 1 [+1]  UInt  x`
+  size      field location, size           `0 [+a]  UInt:8[]  x`
+  alen      array length                   `0 [+4]  UInt:8[a]  x`
+  args      argument of a parameterised type (a field, an expression, a member)
+                                           `0 [+1]  Pk(a + b.v)  x`
+  value     virtual field / alias          `let x = a + 1`, `let x = a`, `let x = b.v`
+  next      `$next` as the start: stands for start + size of the previous
+            physical field, so the field mentions everything that location mentions
+  enumvalue enum value                     `VA1 = (Ee.VB0 == Ee.VB0 ? 1 : 0) + Ss.f`
+with the target qualifiers  :param (run-time parameter), :member (`b.v`, a
+member of a structure-typed field: the dependency is on `b`), :static
+(`Ss.f`, a field of another structure, possibly of an imported module), :enum.
+`[requires: ...]` attributes (on a field: `this` only; on a structure: any
+fields) are written too; attributes are not dependencies, so they add no edge.
 
 Shapes: acyclic under a random topological order that is unrelated to source
 order ("acyclic"), acyclic with source order already valid ("sorted"), self
 loops ("self"), one long cycle ("cycle"), several strongly connected
 components ("multi"), dense random ("dense"), import cycles ("import").
 
-The dependency graph the checks use is always extracted from the real IR; the
-`planted` edge list is only used to confirm that extraction sees every
-reference that was written.
+`planted()` is the dependency graph *by construction* (from the text that was
+written, `$next` expanded by the rule above); the checks take the expected
+cycle verdict, the expected components and the expected field order from it,
+never from the compiler's own dependency map.
 """
 
 LETTERS = "abcdefghijklmnopqrstuvwxyz"
+FKINDS = ["int", "int", "array", "array", "virtual", "virtual", "struct", "pstruct", "pstruct"]
 
 
 class Node:
-    __slots__ = ("kind", "module", "owner", "name", "idx", "deps", "fkind", "rank")
+    __slots__ = ("kind", "module", "owner", "name", "deps", "fkind", "rank", "final", "labels")
 
     def __init__(self, kind, module, owner, name):
         self.kind, self.module, self.owner, self.name = kind, module, owner, name
         self.deps = []
         self.fkind = None
         self.rank = 0
+        self.final = None      # the dependencies actually written (list of Node), set by rendering
+        self.labels = []       # (target Node, edge kind label)
 
     def key(self, files):
         # the hashable form the compiler uses: (file, Type, member)
@@ -46,6 +62,7 @@ class DepsModules:
         self.size = size or rng.choice([1, 1, 2, 2, 3])
         self._files = None
         self.build()
+        self.file_map()
 
     # -- structure of the universe ---------------------------------------------
     def build(self):
@@ -67,7 +84,7 @@ class DepsModules:
                 fields = []
                 for i in range(nf):
                     n = Node("field", m, sname, "%s%d" % (LETTERS[(sc - 1) % 26], i))
-                    n.fkind = r.choice(["int", "int", "array", "virtual", "virtual"])
+                    n.fkind = r.choice(FKINDS)
                     fields.append(n)
                 self.structs.append((m, sname, params, fields))
                 self.nodes += params + fields
@@ -79,11 +96,7 @@ class DepsModules:
                 self.enums.append((m, ename, vals))
                 self.nodes += vals
         self.imports = {m: set(range(m + 1, nmod)) for m in range(nmod)}   # m imports the later modules
-        if nmod > 1 and self.shape != "import" and r.random() < 0.5:
-            # drop imports nobody needs later (decided after the edges are chosen)
-            self.trim_imports = True
-        else:
-            self.trim_imports = False
+        self.trim_imports = nmod > 1 and self.shape != "import" and r.random() < 0.5
         ranks = list(range(len(self.nodes)))
         if self.shape != "sorted":
             r.shuffle(ranks)
@@ -92,13 +105,6 @@ class DepsModules:
         self.choose_edges()
         if self.shape == "import":
             self.plant_import_cycle()
-        if self.trim_imports:
-            need = {m: set() for m in range(nmod)}
-            for n in self.nodes:
-                for d in n.deps:
-                    if d.module != n.module:
-                        need[n.module].add(d.module)
-            self.imports = need
 
     def allowed(self, u, v):
         if u.kind == "param":
@@ -112,6 +118,9 @@ class DepsModules:
     def add_edge(self, u, v):
         if v not in u.deps:
             u.deps.append(v)
+
+    def acyclic_shape(self):
+        return self.shape in ("acyclic", "sorted", "import")
 
     def choose_edges(self):
         r = self.rng
@@ -183,16 +192,32 @@ class DepsModules:
             self.import_cycle = [b, a]
 
     # -- rendering -------------------------------------------------------------
+    def is_local(self, u, v):
+        return u.kind == "field" and v.kind in ("field", "param") and v.module == u.module and v.owner == u.owner
+
     def ref(self, u, v):
         """Text of a reference to node v inside node u (an integer-typed atom)."""
-        if u.kind == "field" and v.kind in ("field", "param") and v.module == u.module and v.owner == u.owner:
+        if self.is_local(u, v):
             if v.kind == "field" and v.fkind == "array":
                 return "($present(%s) ? 1 : 0)" % v.name      # arrays are not integers
+            if v.kind == "field" and v.fkind in ("struct", "pstruct"):
+                return "%s.v" % v.name                         # a member: the dependency is on v itself
             return v.name
         q = "" if v.module == u.module else "x%d." % v.module
         if v.kind == "value":
             return "(%s%s.%s == %s%s.%s ? 1 : 0)" % (q, v.owner, v.name, q, v.owner, v.name)
         return "%s%s.%s" % (q, v.owner, v.name)
+
+    def qualifier(self, u, v):
+        if v.kind == "param":
+            return ":param"
+        if v.kind == "value":
+            return ":enum"
+        if not self.is_local(u, v):
+            return ":static"
+        if v.fkind in ("struct", "pstruct"):
+            return ":member"
+        return ""
 
     def sum_of(self, u, deps, base):
         parts = [self.ref(u, v) for v in deps]
@@ -202,45 +227,109 @@ class DepsModules:
             parts.append(str(base))
         return " + ".join(parts)
 
+    def render_struct(self, L, m, sname, params, fields):
+        r = self.rng
+        plist = "(%s)" % ", ".join("%s: UInt:8" % p.name for p in params) if params else ""
+        L.append("struct %s%s:" % (sname, plist))
+        if r.random() < 0.3:
+            # attributes are not dependencies: may mention anything, adds no edge
+            some = r.sample(fields, min(len(fields), r.randint(1, 2)))
+            L.append("  [requires: %s < 1000]" % " + ".join(self.ref(fields[0], v) for v in some))
+        off = 0
+        prev_loc = None           # dependencies of the previous physical field's start and size
+        for f in fields:
+            deps = list(f.deps)
+            r.shuffle(deps)
+            slots = {"cond": [], "start": [], "size": [], "alen": [], "args": [], "value": []}
+            if f.fkind == "virtual":
+                choices = ["value"]
+            elif f.fkind == "array":
+                choices = ["cond", "start", "start", "size", "alen"]
+            elif f.fkind == "pstruct":
+                choices = ["cond", "start", "args", "args", "args"]
+            else:
+                choices = ["cond", "start", "start"]
+            for d in deps:
+                slots[r.choice(choices)].append(d)
+            if f.fkind == "array" and slots["size"] and slots["alen"]:
+                slots["start"] += slots["alen"]          # either an automatic length or an explicit one
+                slots["alen"] = []
+            use_next = False
+            if f.fkind != "virtual" and prev_loc is not None and r.random() < 0.3:
+                ok = (not self.acyclic_shape()) or all(d.rank < f.rank and d is not f for d in prev_loc)
+                if ok:
+                    use_next = True
+                    slots["cond"] += slots["start"]
+                    slots["start"] = []
+            labels = []
+            for k in ("cond", "start", "size", "alen", "args", "value"):
+                for d in slots[k]:
+                    labels.append((d, k + self.qualifier(f, d)))
+            if f.fkind == "virtual":
+                vd = slots["value"]
+                if len(vd) == 1 and r.random() < 0.5:
+                    L.append("  let %s = %s" % (f.name, self.ref(f, vd[0])))          # an alias
+                else:
+                    L.append("  let %s = %s" % (f.name, self.sum_of(f, vd, r.choice([0, 1, 3]) if vd else r.randint(0, 9))))
+                f.final = list(vd)
+                f.labels = labels
+                continue
+            ind = "  "
+            if slots["cond"]:
+                L.append("  if %s == %d:" % (self.sum_of(f, slots["cond"], 0), r.randint(0, 3)))
+                ind = "    "
+            if use_next:
+                st = "$next"
+                start_deps = list(prev_loc)
+                labels += [(d, "next" + self.qualifier(f, d)) for d in prev_loc]
+            else:
+                st = self.sum_of(f, slots["start"], off if not slots["start"] else 0)
+                start_deps = list(slots["start"])
+            size_deps = []
+            if f.fkind == "int":
+                L.append("%s%s [+1]  UInt  %s" % (ind, st, f.name))
+                if r.random() < 0.2:
+                    L.append("%s  [requires: this < 200]" % ind)
+                off += 1
+            elif f.fkind == "struct":
+                L.append("%s%s [+1]  Hh  %s" % (ind, st, f.name))
+                off += 1
+            elif f.fkind == "pstruct":
+                L.append("%s%s [+1]  Pk(%s)  %s" % (ind, st, self.sum_of(f, slots["args"], 0 if slots["args"] else r.randint(0, 9)),
+                                                      f.name))
+                off += 1
+            else:
+                size_deps = list(slots["size"])
+                if slots["alen"]:
+                    L.append("%s%s [+4]  UInt:8[%s]  %s" % (ind, st, self.sum_of(f, slots["alen"], 0), f.name))
+                    off += 4
+                else:
+                    L.append("%s%s [+%s]  UInt:8[]  %s" % (ind, st, self.sum_of(f, size_deps, 2 if not size_deps else 0), f.name))
+                    off += 2
+            final = []
+            for d in slots["cond"] + start_deps + size_deps + slots["alen"] + slots["args"]:
+                if d not in final:
+                    final.append(d)
+            f.final = final
+            f.labels = labels
+            prev_loc = []
+            for d in start_deps + size_deps:
+                if d not in prev_loc:
+                    prev_loc.append(d)
+
     def text_of(self, m):
         r = self.rng
         L = ['[$default byte_order: "LittleEndian"]']
         for t in sorted(self.imports[m]):
             L.insert(0, 'import "%s" as x%d' % (self.files[t], t))
+        kinds = {f.fkind for (mm, sname, params, fields) in self.structs if mm == m for f in fields}
+        if "struct" in kinds:
+            L += ["struct Hh:", "  0 [+1]  UInt  v"]
+        if "pstruct" in kinds:
+            L += ["struct Pk(n: UInt:8):", "  0 [+1]  UInt  v"]
         for (mm, sname, params, fields) in self.structs:
-            if mm != m:
-                continue
-            plist = "(%s)" % ", ".join("%s: UInt:8" % p.name for p in params) if params else ""
-            L.append("struct %s%s:" % (sname, plist))
-            off = 0
-            for f in fields:
-                deps = list(f.deps)
-                r.shuffle(deps)
-                if f.fkind == "virtual":
-                    L.append("  let %s = %s" % (f.name, self.sum_of(f, deps, r.choice([0, 1, 3]) if deps else r.randint(0, 9))))
-                    continue
-                # split the dependencies over condition / start / size
-                cond, start, size = [], [], []
-                for d in deps:
-                    k = r.random()
-                    if k < 0.3:
-                        cond.append(d)
-                    elif k < 0.75 or f.fkind == "int":
-                        start.append(d)
-                    else:
-                        size.append(d)
-                ind = "  "
-                if cond:
-                    L.append("  if %s == %d:" % (self.sum_of(f, cond, 0), r.randint(0, 3)))
-                    ind = "    "
-                st = self.sum_of(f, start, off if not start else 0)
-                if f.fkind == "int":
-                    L.append("%s%s [+1]  UInt  %s" % (ind, st, f.name))
-                    off += 1
-                else:
-                    sz = self.sum_of(f, size, 2 if not size else 0)
-                    L.append("%s%s [+%s]  UInt:8[]  %s" % (ind, st, sz, f.name))
-                    off += 2
+            if mm == m:
+                self.render_struct(L, m, sname, params, fields)
         for (mm, ename, vals) in self.enums:
             if mm != m:
                 continue
@@ -249,20 +338,68 @@ class DepsModules:
                 deps = list(v.deps)
                 r.shuffle(deps)
                 L.append("  %s = %s" % (v.name, self.sum_of(v, deps, i if deps else i + 1)))
+                v.final = deps
+                v.labels = [(d, "enumvalue" + self.qualifier(v, d)) for d in deps]
         return "\n".join(L) + "\n"
 
     def file_map(self):
         if self._files is None:
+            if self.trim_imports:
+                need = {m: set() for m in range(len(self.files))}
+                for n in self.nodes:
+                    for d in n.deps:
+                        if d.module != n.module:
+                            need[n.module].add(d.module)
+                self.imports = need
             self._files = {self.files[m]: self.text_of(m) for m in range(len(self.files))}
+            for n in self.nodes:
+                if n.final is None:
+                    n.final = []
         return self._files
 
+    # -- the graph by construction -----------------------------------------------
+    def reachable_modules(self):
+        seen, todo = {0}, [0]
+        while todo:
+            m = todo.pop()
+            for t in self.imports[m]:
+                if t not in seen:
+                    seen.add(t)
+                    todo.append(t)
+        return seen
+
+    def planted_graph(self):
+        """{node key: set(node keys)} over the objects of the modules the main file (transitively) imports."""
+        self.file_map()
+        mods = self.reachable_modules()
+        return {u.key(self.files): {v.key(self.files) for v in u.final} for u in self.nodes if u.module in mods}
+
     def planted(self):
-        return [(u.key(self.files), v.key(self.files)) for u in self.nodes for v in u.deps]
+        return [(u, v) for u, vs in self.planted_graph().items() for v in vs]
+
+    def planted_structs(self):
+        """For the order oracle: [(struct key, [field names in source order], [local dependency name sets], [param names])]."""
+        self.file_map()
+        mods = self.reachable_modules()
+        out = []
+        for (m, sname, params, fields) in self.structs:
+            if m not in mods:
+                continue
+            local = []
+            for f in fields:
+                local.append({d.name for d in f.final if self.is_local(f, d)})
+            out.append(((self.files[m], sname), [f.name for f in fields], local, [p.name for p in params]))
+        return out
+
+    def edge_labels(self):
+        self.file_map()
+        mods = self.reachable_modules()
+        return [(u.key(self.files), v.key(self.files), lab) for u in self.nodes if u.module in mods for (v, lab) in u.labels]
 
     def describe(self):
         return {"shape": self.shape, "modules": len(self.files), "structs": len(self.structs),
                 "enums": len(self.enums), "nodes": len(self.nodes),
-                "edges": sum(len(n.deps) for n in self.nodes),
+                "edges": sum(len(n.final or []) for n in self.nodes),
                 "planted_cycle_lengths": [len(c) for c in self.planted_cycles]}
 
 
